@@ -111,7 +111,8 @@ def run(prog, tier) -> Result:
     res.trusted = ["CPython metaclass protocol (__new__ then __init__)", "C01 rule R01.3 (scale from the normalised definition)"]
     res.assumptions = ["NOT decided: that the registry's term equality identifies 'another dimension' for every catalogue (C07)"]
 
-    mk = prog.method("QuantityMeta", "_make_unit")
+    from ..anchors import unit_creator
+    mk = unit_creator(prog)
     nu = prog.method("QuantityMeta", "new_unit")
     du = prog.method("QuantityMeta", "derive_unit_from")
 
